@@ -87,6 +87,9 @@ var (
 func qual(p *types.Package) string { return p.Path() }
 
 func tid(t types.Type) string {
+	if a, ok := t.(*types.Alias); ok {
+		return tid(types.Unalias(a))
+	}
 	s := types.TypeString(t, qual)
 	if id, ok := typeIDs[s]; ok {
 		return id
